@@ -283,12 +283,13 @@ package sql
 //@   prop C17
 //@   requires c != nil && c.Conn != nil && c.Conn.res != nil && c.xaBranchXid != nil
 //@   modifies c.isConnKept, syncmap(c.Conn.res, "keeper")
-//@   ensures true
+//@   ensures released: (c.Conn.res.shouldBeHeld || c.Conn.res.dbType != types.DBTypeUnknown) ==> !c.isConnKept
+//@   ensures untouched-otherwise: !(c.Conn.res.shouldBeHeld || c.Conn.res.dbType != types.DBTypeUnknown) ==> c.isConnKept == old(c.isConnKept)
 //@ func (*XAConn).keepIfNecessary
 //@   prop C17
 //@   requires c != nil && c.Conn != nil && c.Conn.res != nil && c.xaBranchXid != nil
 //@   modifies c.isConnKept, syncmap(c.Conn.res, "keeper")
-//@   ensures true
+//@   ensures kept-only-for-held-resources: !(c.Conn.res.shouldBeHeld || c.Conn.res.dbType != types.DBTypeUnknown) ==> c.isConnKept == old(c.isConnKept)
 //@ func (*XAConn).termination
 //@   prop C17
 //@   requires c != nil && c.Conn != nil && c.Conn.res != nil && c.Conn.txCtx != nil && c.xaBranchXid != nil
@@ -380,6 +381,7 @@ package sql
 //@   ensures active-branch: global && result1 == nil ==> result0 != nil && c.xaResource != nil && c.tx != nil && c.xaBranchXid != nil && !c.Conn.autoCommit && c.Conn.txCtx != nil && ghost.xa_id == c.xaBranchXid.xid + "-" + ufs("fmtuint", c.xaBranchXid.branchId) && ghost.registers == 1 && ghost.reg_ok
 //@   let wasActive := c.xaActive
 //@   ensures failure-not-active: global && result1 != nil && !wasActive ==> !c.xaActive
+//@   ensures failed-start-is-not-held-for-phase-two: global && (c.Conn.res.shouldBeHeld || c.Conn.res.dbType != types.DBTypeUnknown) && called("start#1") && callres("start#1", 0) != nil ==> !c.isConnKept
 //@   at call start#1: assert id-from-xid-and-branch: c.xaBranchXid != nil && c.xaBranchXid.xid == cv.(*tm.ContextVariable).Xid && c.xaBranchXid.branchId == c.Conn.txCtx.BranchID && c.Conn.txCtx.BranchID != 0 && ghost.registers == 1 && ghost.reg_ok
 //@   ensures local-untouched: !global ==> ghost.xa_state == 0 && ghost.registers == 0
 //@   ensures never-beyond-active: ghost.xa_state != 3 && ghost.xa_state != 4
